@@ -149,9 +149,10 @@ impl ValidationHooks for RefusingHooks {
 /// bytes; BLTE chunk: MD5 of the stored chunk; V1 reply: SHA-256 / MD5 over the message bytes). A byte of such a region
 /// that can be changed in place without the load failing is not protected, whether or not the loader exposes it
 /// (a verifier that hashes what it re-serialises instead of what it read has exactly this effect).
-/// The one kind still judged by exposed content is the update entry: its parser maps unknown status values to Normal,
-/// which has been recorded as "accepted-content-equal(benign)" since the first version of the check.
-const IN_PLACE_JUDGED_BY_CONTENT_ONLY: &[&str] = &["update-entry"];
+/// No kind is exempt. (The update entry was, until the end of round 5: its parser maps unknown status values to Normal and
+/// its verifier hashes the re-serialised entry, so a changed status byte of a Normal entry validates — recorded as benign
+/// by the first version of the check, now reported and listed as a known finding.)
+const IN_PLACE_JUDGED_BY_CONTENT_ONLY: &[&str] = &[];
 
 #[allow(clippy::too_many_arguments)]
 fn judge(ctx: &Ctx, t: &mut Tally, a: &Artifact, class: &str, part: &str, mutated: &[u8], describe: impl Fn() -> Value) {
